@@ -868,6 +868,11 @@ func (env *SpecEnv) tryResolveType(s string) (types.Type, *Sort) {
 	}
 	info := &types.Info{Types: map[ast.Expr]types.TypeAndValue{}}
 	if err := types.CheckExpr(ex.prog.Fset, pkg.P.Types, pos, expr, info); err != nil {
+		// unexported type of another package of the repository: [*]pkg.name[Args]
+		if ty := env.resolveForeign(s); ty != nil {
+			defer func() { recover() }()
+			return ty, ex.w.sortOf(ty)
+		}
 		return nil, nil
 	}
 	tv, ok := info.Types[expr]
@@ -1205,4 +1210,56 @@ func (ex *Exec) ghostLocals(st *State) map[string]Val {
 		st.frame.ghost = map[string]Val{}
 	}
 	return st.frame.ghost
+}
+
+func (env *SpecEnv) resolveForeign(s string) types.Type {
+	ptr := false
+	if strings.HasPrefix(s, "*") {
+		ptr = true
+		s = s[1:]
+	}
+	dot := strings.Index(s, ".")
+	if dot < 0 {
+		return nil
+	}
+	pk := env.ex.prog.pkgByShort(s[:dot])
+	if pk == nil {
+		return nil
+	}
+	rest := s[dot+1:]
+	name := rest
+	var argStrs []string
+	if i := strings.Index(rest, "["); i >= 0 && strings.HasSuffix(rest, "]") {
+		name = rest[:i]
+		argStrs = splitTop(rest[i+1:len(rest)-1], ',')
+	}
+	obj := pk.P.Types.Scope().Lookup(name)
+	tn, ok := obj.(*types.TypeName)
+	if !ok {
+		return nil
+	}
+	var ty types.Type = tn.Type()
+	if len(argStrs) > 0 {
+		named, ok := ty.(*types.Named)
+		if !ok {
+			return nil
+		}
+		var args []types.Type
+		for _, a := range argStrs {
+			at, _ := env.tryResolveType(strings.TrimSpace(a))
+			if at == nil {
+				return nil
+			}
+			args = append(args, at)
+		}
+		inst, err := types.Instantiate(nil, named.Origin(), args, false)
+		if err != nil {
+			return nil
+		}
+		ty = inst
+	}
+	if ptr {
+		ty = types.NewPointer(ty)
+	}
+	return ty
 }
